@@ -7,6 +7,9 @@ import SpVerif.Proofs.KeepAlive
 import SpVerif.Proofs.Nak
 import SpVerif.Proofs.FileData
 import SpVerif.Props.C07
+import SpVerif.Proofs.Eof
+import SpVerif.Proofs.Finished
+import SpVerif.Proofs.Metadata
 /-!
 # Lemmas about the PDU factory model (`Model/Factory.lean`)
 
@@ -280,57 +283,45 @@ theorem documented_map {α β : Type} (f : α → β) {x : Py α} (h : Documente
   | ok a => exact Documented.ok _
   | error e => intro e' he; cases he; exact h e rfl
 
-/-- the decoder of every modelled kind fails only with documented errors (C06 / C07) -/
-theorem decodeAs_documented (k : Kind) (hk : (decoderOf k).isSome = true) (d : Bytes) :
-    Documented (decodeAs k d) := by
-  cases k <;> simp [decoderOf] at hk <;> simp only [decodeAs, decoderOf]
+/-- the decoder of every kind fails only with documented errors (C06 / C07) -/
+theorem decodeAs_documented (k : Kind) (d : Bytes) : Documented (decodeAs k d) := by
+  cases k <;> simp only [decodeAs, decoderOf]
   · exact documented_map _ (documented_map _ (FileData.unpack_documented d))
+  · exact documented_map _ (documented_map _ (Eof.unpack_documented d))
+  · exact documented_map _ (documented_map _ (Finished.unpack_documented d))
   · exact documented_map _ (documented_map _ (Ack.unpack_documented d))
+  · exact documented_map _ (documented_map _ (Metadata.unpack_documented d))
   · exact documented_map _ (documented_map _ (Nak.unpack_documented d))
   · exact documented_map _ (documented_map _ (Prompt.unpack_documented d))
   · exact documented_map _ (documented_map _ (KeepAlive.unpack_documented d))
 
-/-- kinds whose decoder is modelled (stage 1: all but EOF, Finished, Metadata) -/
-def Modelled (dir : Option Nat) : Prop := dir ≠ some DIR_EOF ∧ dir ≠ some DIR_FINISHED ∧ dir ≠ some DIR_METADATA
-
-theorem dispatch_documented (dir : Option Nat) (hm : Modelled dir) (d : Bytes) :
-    Documented (dispatch dir d) := by
-  obtain ⟨h1, h2, h3⟩ := hm
+theorem dispatch_documented (dir : Option Nat) (d : Bytes) : Documented (dispatch dir d) := by
   unfold dispatch
-  rw [if_neg h1, if_neg h3, if_neg h2]
-  split
-  · exact decodeAs_documented _ rfl d
-  · split
-    · exact decodeAs_documented _ rfl d
-    · split
-      · exact decodeAs_documented _ rfl d
-      · split
-        · exact decodeAs_documented _ rfl d
-        · exact Documented.ok _
+  repeat' split
+  all_goals first | exact decodeAs_documented _ d | exact Documented.ok _
 
-/-- `from_raw` fails, for any octet string whatever, only with documented errors
-    (stage 1: provided the directive octet does not name one of the three kinds not modelled yet) -/
-theorem fromRaw_documented (d : Bytes) (hm : ∀ dir, pduDirectiveType d = .ok dir → Modelled dir) :
-    Documented (fromRaw d) := by
+/-- `from_raw` fails, for any octet string whatever, only with documented errors -/
+theorem fromRaw_documented (d : Bytes) : Documented (fromRaw d) := by
   cases d with
   | nil => exact Documented.err rfl
   | cons x r =>
     rw [fromRaw_cons]
     split
-    · exact decodeAs_documented _ rfl _
+    · exact decodeAs_documented _ _
     · apply Documented.bind (pduDirectiveType_documented _)
-      intro dir hd
-      exact dispatch_documented dir (hm dir hd) _
+      intro dir _
+      exact dispatch_documented dir _
 
 /-! ## soundness of the dispatch for any input -/
 
 /-- the objects the library itself builds (constructors, factory), as opposed to objects obtained by
     calling the decoder of one class on the octets of another kind: a File Data object carries the
-    File Data type bit, a Prompt object the Prompt directive code (the two classes whose
+    File Data type bit, a Prompt / EOF object its own directive code (the three classes whose
     `pdu_type` / `directive_type` views read stored values) -/
 def AnyPdu.Canonical : AnyPdu → Prop
   | .fileData x => x.header.pduType = FILE_DATA
   | .prompt x => x.fd.code = DIR_PROMPT
+  | .eof x => x.fd.code = DIR_EOF
   | _ => True
 
 instance (p : AnyPdu) : Decidable p.Canonical := by
@@ -343,16 +334,11 @@ theorem map_ok_inv {α β : Type} (f : α → β) (x : Py α) (b : β) (h : f <$
   | ok a => cases h; exact ⟨a, rfl, rfl⟩
 
 theorem decodeAs_inv (k : Kind) (d : Bytes) (p : AnyPdu) (h : decodeAs k d = .ok (some p)) :
-    ∃ f, decoderOf k = some f ∧ f d = .ok p := by
+    decoderOf k d = .ok p := by
   unfold decodeAs at h
-  cases hk : decoderOf k with
-  | none => rw [hk] at h; cases h
-  | some f =>
-    rw [hk] at h
-    change some <$> f d = _ at h
-    obtain ⟨q, hq, he⟩ := map_ok_inv _ _ _ h
-    cases he
-    exact ⟨f, rfl, hq⟩
+  obtain ⟨q, hq, he⟩ := map_ok_inv _ _ _ h
+  cases he
+  exact hq
 
 /-- the directive code stored by a directive decoder is the octet `pdu_directive_type` reads -/
 theorem code_of_prelude (d : Bytes) (fd : FileDirective) (q : Bytes) (c : Nat)
@@ -388,41 +374,50 @@ theorem fromRaw_sound (d : Bytes) (p : AnyPdu) (h : fromRaw d = .ok (some p)) :
         rw [pduType_cons, h0]
         unfold dispatch at h
         split at h
-        · obtain ⟨f, hf, _⟩ := decodeAs_inv _ _ _ h; cases hf
+        · rename_i hdir; subst hdir
+          have hx : AnyPdu.eof <$> Eof.Eof.unpack (x :: r) = .ok p := decodeAs_inv _ _ _ h
+          obtain ⟨a, ha, rfl⟩ := map_ok_inv _ _ _ hx
+          refine ⟨?_, rfl, rfl⟩
+          obtain ⟨fd, q, hp, hf, _⟩ := Eof.unpack_inv _ a ha
+          have hc := (Eof.parse_fd fd q a hf).2.1
+          show a.fd.code = DIR_EOF
+          rw [hc]; exact code_of_prelude _ _ _ _ hp hd
         · split at h
-          · obtain ⟨f, hf, _⟩ := decodeAs_inv _ _ _ h; cases hf
+          · rename_i hdir; subst hdir
+            have hx : AnyPdu.metadata <$> Metadata.Metadata.unpack (x :: r) = .ok p := decodeAs_inv _ _ _ h
+            obtain ⟨a, _, rfl⟩ := map_ok_inv _ _ _ hx
+            exact ⟨trivial, rfl, rfl⟩
           · split at h
-            · obtain ⟨f, hf, _⟩ := decodeAs_inv _ _ _ h; cases hf
+            · rename_i hdir; subst hdir
+              have hx : AnyPdu.finished <$> Finished.Finished.unpack (x :: r) = .ok p := decodeAs_inv _ _ _ h
+              obtain ⟨a, _, rfl⟩ := map_ok_inv _ _ _ hx
+              exact ⟨trivial, rfl, rfl⟩
             · split at h
               · rename_i hdir; subst hdir
-                obtain ⟨f, hf, hx⟩ := decodeAs_inv _ _ _ h
-                cases hf
+                have hx : AnyPdu.ack <$> Ack.Ack.unpack (x :: r) = .ok p := decodeAs_inv _ _ _ h
                 obtain ⟨a, _, rfl⟩ := map_ok_inv _ _ _ hx
                 exact ⟨trivial, rfl, rfl⟩
               · split at h
                 · rename_i hdir; subst hdir
-                  obtain ⟨f, hf, hx⟩ := decodeAs_inv _ _ _ h
-                  cases hf
+                  have hx : AnyPdu.nak <$> Nak.Nak.unpack (x :: r) = .ok p := decodeAs_inv _ _ _ h
                   obtain ⟨a, _, rfl⟩ := map_ok_inv _ _ _ hx
                   exact ⟨trivial, rfl, rfl⟩
                 · split at h
                   · rename_i hdir; subst hdir
-                    obtain ⟨f, hf, hx⟩ := decodeAs_inv _ _ _ h
-                    cases hf
+                    have hx : AnyPdu.keepAlive <$> KeepAlive.KeepAlive.unpack (x :: r) = .ok p :=
+                      decodeAs_inv _ _ _ h
                     obtain ⟨a, _, rfl⟩ := map_ok_inv _ _ _ hx
                     exact ⟨trivial, rfl, rfl⟩
                   · split at h
                     · rename_i hdir; subst hdir
-                      obtain ⟨f, hf, hx⟩ := decodeAs_inv _ _ _ h
-                      cases hf
+                      have hx : AnyPdu.prompt <$> Prompt.Prompt.unpack (x :: r) = .ok p := decodeAs_inv _ _ _ h
                       obtain ⟨a, ha, rfl⟩ := map_ok_inv _ _ _ hx
                       refine ⟨?_, rfl, rfl⟩
                       obtain ⟨hp, _⟩ := Prompt.unpack_inv _ a ha
                       exact code_of_prelude _ _ _ _ hp hd
                     · cases h
     · rw [if_pos h0] at h
-      obtain ⟨f, hf, hx⟩ := decodeAs_inv _ _ _ h
-      cases hf
+      have hx : AnyPdu.fileData <$> FileData.Pdu.unpack (x :: r) = .ok p := decodeAs_inv _ _ _ h
       obtain ⟨a, ha, rfl⟩ := map_ok_inv _ _ _ hx
       obtain ⟨_, _, _, hu⟩ := C07.C07_decode_encode _ a ha
       have ht := pduType_of_header _ _ hu
